@@ -20,9 +20,16 @@ import (
 	"verif/engine/sx"
 )
 
-const RepoDir = "/repo"
-const PkgDir = "/repo/jsonschema"
-const OverlayDst = "/repo/jsonschema/zz_verif_export.go"
+// RepoDir is the checkout under check: /repo (bin/check exports VERIF_REPO; another value is
+// used only to try seeded changes in a scratch worktree).
+var RepoDir = func() string {
+	if d := os.Getenv("VERIF_REPO"); d != "" {
+		return d
+	}
+	return "/repo"
+}()
+var PkgDir = RepoDir + "/jsonschema"
+var OverlayDst = RepoDir + "/jsonschema/zz_verif_export.go"
 
 // VerifDir is the root of the verification tree (bin/check exports VERIF_ROOT so that a
 // snapshot elsewhere uses its own files).
